@@ -10,7 +10,9 @@ use piecewise_polynomial::*;
 use serde_json::json;
 
 pub fn pos_arg(r: &mut Rng) -> (f64, &'static str) {
-    match r.below(12) {
+    match r.below(14) {
+        12 => (10f64.powf(r.uniform(-40.0, -6.0)), "e-40_to_e-6"),
+        13 => (10f64.powf(r.uniform(6.0, 40.0)), "e6_to_e40"),
         0 => (r.uniform(0.01, 1.0), "in_0_1"),
         1 => (r.uniform(1.0, 30.0), "above_1"),
         2 => (ulps(1.0, r.int(-40, 40)), "ulps_of_1"),
